@@ -403,3 +403,71 @@ def group_key(i, form):
             return 'value-not-of-announced-datatype'
         return 'ok'
     return native(run)
+
+
+# ---------------------------------------------------------------------------
+# C04.folded: operators folded over literal operands announce the operator's result type
+
+FOLD_LITERALS = [('int', 5), ('zero', 0), ('str', 'abc'), ('empty', ''), ('decimal', D('1.5')), ('date', datetime.date(2012, 1, 1)),
+                 ('bool', True), ('null', None)]
+
+
+@cond('C04.folded', quick=120,
+      bounds=f'NOT x, x IS NULL, x IS NOT NULL, -x for a literal x of each of {[n for n, _ in FOLD_LITERALS]} (folded by the compiler) and '
+             'x = x, x + x for the same literals: when accepted, the value conforms to the announced datatype',
+      symbolic='(none)', enumerated='literal, operator', params={'i': int, 'op': int})
+def folded(i, op):
+    name, value = pick(FOLD_LITERALS, i)
+    op = enum_int(op, 0, 5)
+
+    def run():
+        x = const(value)
+        node = [lambda: ast.Not(x), lambda: ast.IsNull(x), lambda: ast.IsNotNull(x), lambda: ast.Neg(x),
+                lambda: ast.Equal(x, const(value)), lambda: ast.Add(x, const(value))][op]()
+        stmt = sel([target(node, 'r')], 't')
+        conn = connect(t=HTable('t', [('c', int)], [(1,)]))
+        try:
+            query = conn.compile(stmt)
+        except beanquery.CompilationError:
+            return 'ok'
+        try:
+            desc, rows = beanquery.query_execute.execute_query(query)
+        except TypeError as exc:
+            return 'type-error-at-execution:' + str(exc)[:60]
+        if not conforms(rows[0][0], desc[0].datatype):
+            return f'value-not-of-announced-datatype ({desc[0].datatype.__name__})'
+        return 'ok'
+    return native(run)
+
+
+# ---------------------------------------------------------------------------
+# C04.pivot: the pivoted description announces the datatypes of the cells it holds
+
+@cond('C04.pivot', quick=120,
+      bounds='SELECT <permutation of (k: int, s: str, sum(d): Decimal, count(*): int)> ... GROUP BY k, s PIVOT BY every ordered pair of the '
+             'two grouping columns (by position): every cell of the pivoted rows conforms to the datatype announced for its column',
+      symbolic='(none)', enumerated='target permutation, pivot order', params={'perm': int, 'swap': bool})
+def pivot_datatypes(perm, swap):
+    import itertools
+    perm = enum_int(perm, 0, 23)
+    swap = bool(swap)
+
+    def run():
+        items = {'k': lambda: target(col('k')), 's': lambda: target(col('s')), 'd': lambda: target(func('sum', col('d')), 'sd'),
+                 'n': lambda: target(func('count', ast.Asterisk()), 'n')}
+        layout = list(itertools.permutations(['k', 's', 'd', 'n']))[perm]
+        targets = [items[x]() for x in layout]
+        pk, ps = layout.index('k') + 1, layout.index('s') + 1
+        refs = [ps, pk] if swap else [pk, ps]
+        stmt = sel(targets, 't', group_by=ast.GroupBy([col('k'), col('s')], None), pivot_by=ast.PivotBy(refs))
+        rows = [(1, 'x', D('1.5')), (2, 'y', D('2.5')), (1, 'y', D('4')), (2, 'x', None)]
+        conn = connect(t=HTable('t', [('k', int), ('s', str), ('d', D)], rows))
+        desc, got = beanquery.query_execute.execute_query(conn.compile(stmt))
+        for row in got:
+            if len(row) != len(desc):
+                return 'row-width'
+            for cell, column in zip(row, desc):
+                if not conforms(cell, column.datatype):
+                    return f'pivoted-cell-not-of-announced-datatype ({column.name}: {column.datatype.__name__})'
+        return 'ok'
+    return native(run)
